@@ -22,9 +22,7 @@ mutual
 theorem Tree.flatten_setNorm (ks : List (String × NormRes)) (t : Tree) : (t.setNorm ks).flatten = t.flatten.map (normInfo ks) := by
   match t with
   | .node i k =>
-    simp only [Tree.setNorm, Tree.flatten, List.map_cons, Forest.flatten_setNorm ks k]
-    congr 1
-    unfold normInfo
+    simp only [Tree.setNorm, Tree.flatten, List.map_cons, Forest.flatten_setNorm ks k, normInfo]
     cases List.lookup i.id ks <;> rfl
 theorem Forest.flatten_setNorm (ks : List (String × NormRes)) (f : Forest) : (f.setNorm ks).flatten = f.flatten.map (normInfo ks) := by
   match f with
@@ -93,5 +91,867 @@ theorem mem_of_map_key_eq {a b : List Info} (h : a.map key = b.map key) (i : Inf
   rw [← h] at this
   obtain ⟨j, hj, hk⟩ := List.mem_map.1 this
   exact ⟨j, hj, hk⟩
+
+
+theorem leaves_flatten (kids : List Info) : (leaves kids).flatten = kids := by
+  induction kids with
+  | nil => rfl
+  | cons c cs ih => simp [leaves, Forest.flatten, Tree.flatten, ih]
+
+/-- where the nodes of the post-processed tree come from: an old node with the same key, or a new Fresh child -/
+def PostNodes (old : List Info) (new : List Info) : Prop :=
+  (∀ i ∈ old, ∃ j ∈ new, key j = key i) ∧ (∀ j ∈ new, (∃ i ∈ old, key i = key j) ∨ j.st = .fresh)
+
+theorem PostNodes.cons {o n : List Info} (i j : Info) (hk : key j = key i) (h : PostNodes o n) : PostNodes (i :: o) (j :: n) := by
+  refine ⟨?_, ?_⟩
+  · intro x hx
+    simp only [List.mem_cons] at hx
+    rcases hx with rfl | hx
+    · exact ⟨j, by simp, hk⟩
+    · obtain ⟨y, hy, hky⟩ := h.1 x hx
+      exact ⟨y, by simp [hy], hky⟩
+  · intro y hy
+    simp only [List.mem_cons] at hy
+    rcases hy with rfl | hy
+    · exact Or.inl ⟨i, by simp, hk.symm⟩
+    · rcases h.2 y hy with ⟨x, hx, hkx⟩ | hf
+      · exact Or.inl ⟨x, by simp [hx], hkx⟩
+      · exact Or.inr hf
+
+theorem PostNodes.append {o1 n1 o2 n2 : List Info} (h1 : PostNodes o1 n1) (h2 : PostNodes o2 n2) : PostNodes (o1 ++ o2) (n1 ++ n2) := by
+  refine ⟨?_, ?_⟩
+  · intro x hx
+    rcases List.mem_append.1 hx with hx | hx
+    · obtain ⟨y, hy, hk⟩ := h1.1 x hx; exact ⟨y, by simp [hy], hk⟩
+    · obtain ⟨y, hy, hk⟩ := h2.1 x hx; exact ⟨y, by simp [hy], hk⟩
+  · intro y hy
+    rcases List.mem_append.1 hy with hy | hy
+    · rcases h1.2 y hy with ⟨x, hx, hk⟩ | hf
+      · exact Or.inl ⟨x, by simp [hx], hk⟩
+      · exact Or.inr hf
+    · rcases h2.2 y hy with ⟨x, hx, hk⟩ | hf
+      · exact Or.inl ⟨x, by simp [hx], hk⟩
+      · exact Or.inr hf
+
+theorem PostNodes.refl (l : List Info) : PostNodes l l :=
+  ⟨fun i hi => ⟨i, hi, rfl⟩, fun j hj => Or.inl ⟨j, hj, rfl⟩⟩
+
+theorem PostNodes.addFresh {o n : List Info} (h : PostNodes o n) (extra : List Info) (hf : ∀ c ∈ extra, c.st = .fresh) :
+    PostNodes o (n ++ extra) := by
+  refine ⟨fun i hi => ?_, fun j hj => ?_⟩
+  · obtain ⟨j, hj, hk⟩ := h.1 i hi; exact ⟨j, by simp [hj], hk⟩
+  · rcases List.mem_append.1 hj with hj | hj
+    · exact h.2 j hj
+    · exact Or.inr (hf j hj)
+
+mutual
+theorem Tree.flatten_post (S : SF) (hS : okPost S = true) (cfg : Cfg) (ex : String → Extract) (d lvl : Nat) (pdnr : Int) (isSeed : Bool)
+    (t : Tree) : PostNodes t.flatten (t.post S cfg ex d lvl pdnr isSeed).1.flatten := by
+  match t with
+  | .node i k =>
+    unfold Tree.post
+    split
+    · split
+      · rename_i harch
+        have hnf : (i.st == Status.fresh) = false := by
+          have : i.st = .archived := by simpa using harch
+          rw [this]; rfl
+        show PostNodes _ ((match postAct S cfg ex i (nodeDnr isSeed i.st pdnr) with
+            | PostAct.complete => _ | PostAct.redirect c => _ | PostAct.extract kids outs => _ : Tree × List Outlink).1).flatten
+        split
+        · simp only [Tree.flatten]
+          exact PostNodes.cons i _ (by simp [key, hnf]) (PostNodes.refl _)
+        · rename_i c hc
+          obtain ⟨_, _, _, _, hfresh⟩ := redirect_child S hS cfg ex i _ c hc
+          simp only [Tree.flatten, Forest.flatten_append, Forest.flatten, Tree.flatten, List.append_nil]
+          exact PostNodes.cons i _ (by simp [key, hnf]) ((PostNodes.refl _).addFresh [c] (by intro c' hc'; simp at hc'; rw [hc']; exact hfresh))
+        · rename_i kids outs hc
+          obtain ⟨hkids, _⟩ := extraction_hops S hS cfg ex i _ kids outs hc
+          rw [foldl_append_leaves]
+          simp only [Tree.flatten, Forest.flatten_append, leaves_flatten]
+          refine PostNodes.cons i _ ?_ ((PostNodes.refl _).addFresh kids (fun c hc' => (hkids c hc').2.2))
+          simp only [key, hnf, Prod.mk.injEq, true_and]
+          split <;> rfl
+      · simp only [Tree.flatten]
+        exact PostNodes.cons i _ (by simp [key]) (PostNodes.refl _)
+    · have hk := Forest.flatten_post S hS cfg ex d (lvl + 1) (nodeDnr isSeed i.st pdnr) k
+      show PostNodes _ (match Forest.post S cfg ex d (lvl + 1) (nodeDnr isSeed i.st pdnr) k with
+        | (k', outs) => ((Tree.node { i with body := false } k', outs) : Tree × List Outlink)).1.flatten
+      cases hp : Forest.post S cfg ex d (lvl + 1) (nodeDnr isSeed i.st pdnr) k with
+      | mk k' outs =>
+        rw [hp] at hk
+        simp only [Tree.flatten]
+        exact PostNodes.cons i _ (by simp [key]) hk
+theorem Forest.flatten_post (S : SF) (hS : okPost S = true) (cfg : Cfg) (ex : String → Extract) (d lvl : Nat) (pdnr : Int) (f : Forest) :
+    PostNodes f.flatten (f.post S cfg ex d lvl pdnr).1.flatten := by
+  match f with
+  | .nil => simp only [Forest.post, Forest.flatten]; exact PostNodes.refl _
+  | .cons t f =>
+    simp only [Forest.post, Forest.flatten]
+    exact (Tree.flatten_post S hS cfg ex d lvl pdnr false t).append (Forest.flatten_post S hS cfg ex d lvl pdnr f)
+end
+
+
+/-! ### small tools -/
+
+theorem eq_of_nodup_map {α β} (f : α → β) (l : List α) (h : (l.map f).Nodup) (a b : α) (ha : a ∈ l) (hb : b ∈ l) (hf : f a = f b) : a = b := by
+  induction l with
+  | nil => cases ha
+  | cons x xs ih =>
+    simp only [List.map_cons, List.nodup_cons, List.mem_map, not_exists, not_and] at h
+    simp only [List.mem_cons] at ha hb
+    rcases ha with rfl | ha <;> rcases hb with rfl | hb
+    · rfl
+    · exact absurd hf.symm (h.1 b hb)
+    · exact absurd hf (h.1 a ha)
+    · exact ih h.2 ha hb
+
+/-- the ids `scan` removes or keeps belong to the nodes it scanned -/
+theorem scan_ids (cfg : Cfg) (norm : String → Option NormRes) (t : Tree) (items : List Info) :
+    (∀ x ∈ (scan cfg norm t items).1, ∃ i ∈ items, i.id = x) ∧ (∀ kr ∈ (scan cfg norm t items).2.1, ∃ i ∈ items, i.id = kr.1) := by
+  induction items with
+  | nil => simp [scan]
+  | cons i rest ih =>
+    unfold scan
+    cases verdict cfg norm t i with
+    | panic => simp
+    | stop st => simp
+    | remove =>
+      simp only
+      refine ⟨?_, ?_⟩
+      · intro x hx
+        simp only [List.mem_cons] at hx
+        rcases hx with rfl | hx
+        · exact ⟨i, by simp, rfl⟩
+        · obtain ⟨j, hj, hid⟩ := ih.1 x hx; exact ⟨j, by simp [hj], hid⟩
+      · intro kr hkr
+        obtain ⟨j, hj, hid⟩ := ih.2 kr hkr; exact ⟨j, by simp [hj], hid⟩
+    | keep r =>
+      simp only
+      refine ⟨?_, ?_⟩
+      · intro x hx
+        obtain ⟨j, hj, hid⟩ := ih.1 x hx; exact ⟨j, by simp [hj], hid⟩
+      · intro kr hkr
+        simp only [List.mem_cons] at hkr
+        rcases hkr with rfl | hkr
+        · exact ⟨i, by simp, rfl⟩
+        · obtain ⟨j, hj, hid⟩ := ih.2 kr hkr; exact ⟨j, by simp [hj], hid⟩
+
+theorem lookup_none_of_not_key (ks : List (String × NormRes)) (id : String) (h : ∀ kr ∈ ks, kr.1 ≠ id) : List.lookup id ks = none := by
+  induction ks with
+  | nil => rfl
+  | cons kr rest ih =>
+    obtain ⟨k, r⟩ := kr
+    have hk : k ≠ id := h (k, r) (by simp)
+    have : (id == k) = false := by simpa using fun e => hk e.symm
+    simp only [List.lookup, this]
+    exact ih (fun kr' hkr' => h kr' (by simp [hkr']))
+
+mutual
+/-- when all Fresh nodes sit `r` levels down and nothing is deeper, Fresh nodes have no children -/
+theorem Tree.freshLeaf_of_levels (r : Nat) (t : Tree) (hf : ∀ n, ∀ i ∈ t.atLevel n, i.st = .fresh → n = r) (htop : t.atLevel (r + 1) = []) :
+    t.freshLeaf = true := by
+  match t, r with
+  | .node i k, 0 =>
+    have hk : k = .nil := by simp only [Tree.atLevel] at htop; exact forest_atLevel_zero_nil k htop
+    subst hk
+    simp [Tree.freshLeaf, Forest.freshLeaf]
+  | .node i k, r + 1 =>
+    simp only [Tree.freshLeaf, Bool.and_eq_true, Bool.or_eq_true, bne_iff_ne, ne_eq]
+    refine ⟨?_, Forest.freshLeaf_of_levels r k (fun n j hj hfj => by
+      have := hf (n + 1) j (by simpa [Tree.atLevel] using hj) hfj; omega) (by simpa [Tree.atLevel] using htop)⟩
+    left
+    intro hfi
+    have := hf 0 i (by simp [Tree.atLevel]) hfi
+    omega
+theorem Forest.freshLeaf_of_levels (r : Nat) (f : Forest) (hf : ∀ n, ∀ i ∈ f.atLevel n, i.st = .fresh → n = r) (htop : f.atLevel (r + 1) = []) :
+    f.freshLeaf = true := by
+  match f with
+  | .nil => rfl
+  | .cons t f =>
+    simp only [Forest.atLevel, List.append_eq_nil_iff] at htop
+    simp only [Forest.freshLeaf, Bool.and_eq_true]
+    exact ⟨Tree.freshLeaf_of_levels r t (fun n i hi => hf n i (by simp [Forest.atLevel, hi])) htop.1,
+      Forest.freshLeaf_of_levels r f (fun n i hi => hf n i (by simp [Forest.atLevel, hi])) htop.2⟩
+end
+
+/-- in a `Mid` tree whose level-`d` nodes are the only possibly-Fresh ones, Fresh nodes are leaves -/
+theorem mid_freshLeaf {R d : Nat} {P : Status → Prop} {t : Tree} (h : Mid R d P t) : t.freshLeaf = true :=
+  Tree.freshLeaf_of_levels d t (fun n i hi hf => h.pend n i hi (by rw [hf]; rfl)) h.top
+
+
+/-! ### the invariant and what each stage does to it -/
+
+/-- the non-seed nodes of a tree, in traversal order -/
+def NS (t : Tree) : List Info := t.kids.flatten
+
+/-- processed (no longer Fresh) non-seed nodes with the same URL are the same node -/
+def PU (t : Tree) : Prop := ∀ a ∈ NS t, ∀ b ∈ NS t, a.st ≠ .fresh → b.st ≠ .fresh → a.url = b.url → a.id = b.id
+
+/-- every processed non-seed node of `t` is still in `t'`, processed, with its id and URL -/
+def Keeps (t t' : Tree) : Prop := ∀ m ∈ NS t, m.st ≠ .fresh → ∃ m' ∈ NS t', m'.id = m.id ∧ m'.url = m.url ∧ m'.st ≠ .fresh
+
+theorem Keeps.trans {a b c : Tree} (h1 : Keeps a b) (h2 : Keeps b c) : Keeps a c := by
+  intro m hm hf
+  obtain ⟨m1, hm1, e1, e2, e3⟩ := h1 m hm hf
+  obtain ⟨m2, hm2, f1, f2, f3⟩ := h2 m1 hm1 e3
+  exact ⟨m2, hm2, f1.trans e1, f2.trans e2, f3⟩
+
+/-- `t'` is `t` with some nodes relabelled: same nodes in the same order, ids and URLs kept, processed stays processed -/
+def Relabel (t t' : Tree) : Prop :=
+  t'.info.id = t.info.id ∧
+  ∃ g : Info → Info, NS t' = (NS t).map g ∧ ∀ i, (g i).id = i.id ∧ (g i).url = i.url ∧ (i.st ≠ .fresh → (g i).st ≠ .fresh)
+
+theorem Relabel.refl (t : Tree) : Relabel t t := ⟨rfl, id, by simp, fun i => ⟨rfl, rfl, id⟩⟩
+
+theorem Relabel.trans {a b c : Tree} (h1 : Relabel a b) (h2 : Relabel b c) : Relabel a c := by
+  obtain ⟨r1, g1, e1, p1⟩ := h1
+  obtain ⟨r2, g2, e2, p2⟩ := h2
+  refine ⟨r2.trans r1, g2 ∘ g1, by rw [e2, e1, List.map_map], fun i => ?_⟩
+  obtain ⟨a1, a2, a3⟩ := p1 i
+  obtain ⟨b1, b2, b3⟩ := p2 (g1 i)
+  exact ⟨b1.trans a1, b2.trans a2, fun h => b3 (a3 h)⟩
+
+theorem Relabel.keeps {t t' : Tree} (h : Relabel t t') : Keeps t t' := by
+  obtain ⟨_, g, e, p⟩ := h
+  intro m hm hf
+  exact ⟨g m, by rw [e]; exact List.mem_map.2 ⟨m, hm, rfl⟩, (p m).1, (p m).2.1, (p m).2.2 hf⟩
+
+theorem Relabel.urls {t t' : Tree} (h : Relabel t t') : (NS t').map (·.url) = (NS t).map (·.url) := by
+  obtain ⟨_, g, e, p⟩ := h
+  rw [e, List.map_map]
+  apply List.map_congr_left
+  intro i _
+  exact (p i).2.1
+
+theorem Relabel.ids {t t' : Tree} (h : Relabel t t') : (NS t').map (·.id) = (NS t).map (·.id) := by
+  obtain ⟨_, g, e, p⟩ := h
+  rw [e, List.map_map]
+  apply List.map_congr_left
+  intro i _
+  exact (p i).1
+
+theorem idl_eq (t : Tree) : t.idl = t.info.id :: (NS t).map (·.id) := by
+  match t with | .node i k => simp [Tree.idl_node, NS, Tree.kids, Tree.info, Forest.idl]
+
+theorem Relabel.idl {t t' : Tree} (h : Relabel t t') : t'.idl = t.idl := by
+  rw [idl_eq, idl_eq, h.ids, h.1]
+
+theorem relabel_setStatuses (l : List String) (s : Status) (rq : Bool) (hs : s ≠ .fresh) (t : Tree) : Relabel t (t.setStatuses l s rq) := by
+  match t with
+  | .node i k =>
+    refine ⟨by simp only [Tree.setStatuses, Tree.info]; split <;> rfl, stamp l s rq, ?_, fun j => ?_⟩
+    · simp only [NS, Tree.setStatuses, Tree.kids, Forest.flatten_setStatuses]
+    · unfold stamp
+      split
+      · exact ⟨rfl, rfl, fun _ => hs⟩
+      · exact ⟨rfl, rfl, id⟩
+
+theorem relabel_setRoot (t : Tree) (s : Status) : Relabel t (setRoot t s) := by
+  match t with
+  | .node i k => exact ⟨rfl, id, by simp [NS, setRoot, Tree.kids], fun j => ⟨rfl, rfl, id⟩⟩
+
+theorem finalStep_relabel (t2 : Tree) (sr : Seen × List String) (d : Nat) :
+    let c := finalStep t2 sr d
+    Relabel t2 (if c.2.2.1.isEmpty then c.1 else c.1.setStatuses c.2.2.1 .preProcessed true) := by
+  have h3 := relabel_setStatuses sr.2 .seen false (by simp) t2
+  unfold finalStep
+  simp only
+  split
+  · simp only [List.isEmpty_nil, if_true]
+    exact h3.trans (relabel_setRoot _ _)
+  · split
+    · exact h3
+    · exact h3.trans (relabel_setStatuses _ .preProcessed true (by simp) _)
+
+theorem preTail_relabel (S : SF) (hg : (S.preSeencheckGuard == "always") = false) (cfg : Cfg) (seen : Seen) (t2 : Tree) (d : Nat) :
+    let c := preTail S cfg seen t2 d
+    Relabel t2 (if c.2.2.1.isEmpty then c.1 else c.1.setStatuses c.2.2.1 .preProcessed true) := by
+  unfold preTail
+  simp only
+  split
+  · simp only [List.isEmpty_nil, if_true]
+    exact relabel_setRoot _ _
+  · split
+    · exact finalStep_relabel _ _ _
+    · simp only [hg, Bool.false_or]
+      split
+      · rename_i hcr
+        simp at hcr
+      · exact finalStep_relabel _ _ _
+
+
+/-- the ids on level `d + 1` of `t'` are among those of `t` -/
+def LevelSub (d : Nat) (t t' : Tree) : Prop := ∀ x ∈ ids (t'.atLevel (d + 1)), x ∈ ids (t.atLevel (d + 1))
+
+theorem LevelSub.refl (d : Nat) (t : Tree) : LevelSub d t t := fun _ h => h
+theorem LevelSub.trans {d : Nat} {a b c : Tree} (h1 : LevelSub d a b) (h2 : LevelSub d b c) : LevelSub d a c := fun x hx => h1 x (h2 x hx)
+
+theorem levelSub_setStatuses (d : Nat) (l : List String) (s : Status) (rq : Bool) (t : Tree) : LevelSub d t (t.setStatuses l s rq) := by
+  intro x hx; rw [Tree.atLevel_setStatuses_ids] at hx; exact hx
+
+theorem levelSub_setRoot (d : Nat) (t : Tree) (s : Status) : LevelSub d t (setRoot t s) := by
+  match t with
+  | .node i k => intro x hx; simpa [setRoot, Tree.atLevel] using hx
+
+theorem finalStep_levelSub (t2 : Tree) (sr : Seen × List String) (d e : Nat) :
+    let c := finalStep t2 sr d
+    LevelSub e t2 (if c.2.2.1.isEmpty then c.1 else c.1.setStatuses c.2.2.1 .preProcessed true) := by
+  have h3 := levelSub_setStatuses e sr.2 .seen false t2
+  unfold finalStep
+  simp only
+  split
+  · simp only [List.isEmpty_nil, if_true]
+    exact h3.trans (levelSub_setRoot e _ _)
+  · split
+    · exact h3
+    · exact h3.trans (levelSub_setStatuses e _ .preProcessed true _)
+
+theorem preTail_levelSub (S : SF) (hg : (S.preSeencheckGuard == "always") = false) (cfg : Cfg) (seen : Seen) (t2 : Tree) (d e : Nat) :
+    let c := preTail S cfg seen t2 d
+    LevelSub e t2 (if c.2.2.1.isEmpty then c.1 else c.1.setStatuses c.2.2.1 .preProcessed true) := by
+  unfold preTail
+  simp only
+  split
+  · simp only [List.isEmpty_nil, if_true]
+    exact levelSub_setRoot e _ _
+  · split
+    · exact finalStep_levelSub _ _ _ _
+    · simp only [hg, Bool.false_or]
+      split
+      · rename_i hcr
+        simp at hcr
+      · exact finalStep_levelSub _ _ _ _
+
+theorem NS_sub_flatten (t : Tree) : ∀ i ∈ NS t, i ∈ t.flatten := by
+  match t with | .node i k => intro j hj; simp [NS, Tree.kids] at hj; simp [Tree.flatten, hj]
+
+theorem atLevel_succ_sub_NS (t : Tree) (n : Nat) : ∀ i ∈ t.atLevel (n + 1), i ∈ NS t := by
+  match t with
+  | .node i k => intro j hj; simp only [Tree.atLevel] at hj; simpa [NS, Tree.kids] using Forest.atLevel_sub_flatten k n j hj
+
+theorem NS_ids_nodup (t : Tree) (h : t.idl.Nodup) : ((NS t).map (·.id)).Nodup := by
+  match t with
+  | .node i k => rw [Tree.idl_node, List.nodup_cons] at h; simpa [NS, Tree.kids, Forest.idl] using h.2
+
+theorem root_id_not_in_NS (t : Tree) (h : t.idl.Nodup) : ∀ j ∈ NS t, j.id ≠ t.info.id := by
+  match t with
+  | .node i k =>
+    rw [Tree.idl_node, List.nodup_cons] at h
+    intro j hj he
+    apply h.1
+    simp only [NS, Tree.kids] at hj
+    rw [Tree.info] at he
+    rw [← he]
+    exact List.mem_map.2 ⟨j, hj, rfl⟩
+
+/-- a processed node is none of the (Fresh) nodes of the working level -/
+theorem processed_not_on_level {R d : Nat} {t : Tree} (h : Start R d t) (m : Info) (hm : m ∈ t.flatten) (hf : m.st ≠ .fresh) :
+    ∀ i ∈ t.atLevel d, i.id ≠ m.id := by
+  intro i hi he
+  have : i = m := eq_of_id_eq t.flatten h.ids i m (Tree.atLevel_sub_flatten t d i hi) hm he
+  subst this
+  exact hf (h.fresh i hi)
+
+
+/-! ### preprocess -/
+
+/-- normalising and filtering the working level leaves every processed node in place (only Fresh nodes of the working level
+are touched) -/
+theorem keeps_setNorm_prune {R d : Nat} {t : Tree} (h : Start R d t) (ks : List (String × NormRes)) (rm : List String)
+    (hks : ∀ kr ∈ ks, ∃ i ∈ t.atLevel d, i.id = kr.1) (hrm : ∀ x ∈ rm, ∃ i ∈ t.atLevel d, i.id = x) :
+    (∀ m ∈ NS t, m.st ≠ .fresh → m ∈ NS ((t.setNorm ks).prune rm)) ∧
+    (∀ j ∈ NS ((t.setNorm ks).prune rm), j.st ≠ .fresh → j ∈ NS t) := by
+  have hm0 : Mid R d (· = .fresh) (t.setNorm ks) := mid_setNorm ks h.toMid
+  match t, h, hks, hrm, hm0 with
+  | .node i k, h, hks, hrm, hm0 =>
+    have hfix : ∀ m ∈ k.flatten, m.st ≠ .fresh → normInfo ks m = m ∧ rm.contains m.id = false := by
+      intro m hm hf
+      have hnl := processed_not_on_level h m (by simp [Tree.flatten, hm]) hf
+      refine ⟨?_, ?_⟩
+      · unfold normInfo
+        rw [lookup_none_of_not_key ks m.id (fun kr hkr he => by
+          obtain ⟨j, hj, hid⟩ := hks kr hkr
+          exact hnl j hj (hid.trans he))]
+      · cases hc : rm.contains m.id with
+        | false => rfl
+        | true =>
+          exfalso
+          obtain ⟨j, hj, hid⟩ := hrm m.id (by simpa using hc)
+          exact hnl j hj hid
+    have hfl : (k.setNorm ks).freshLeaf = true := by
+      have := mid_freshLeaf hm0
+      simp only [Tree.setNorm, Tree.freshLeaf, Bool.and_eq_true] at this
+      exact this.2
+    have hleaf : ∀ j ∈ (k.setNorm ks).flatten, rm.contains j.id = true → j.st = .fresh := by
+      intro j hj hc
+      rw [Forest.flatten_setNorm] at hj
+      obtain ⟨j0, hj0, rfl⟩ := List.mem_map.1 hj
+      have hst : (normInfo ks j0).st = j0.st := by unfold normInfo; split <;> rfl
+      rw [hst]
+      cases hs : decide (j0.st = .fresh) with
+      | true => simpa using hs
+      | false =>
+        exfalso
+        have hne : j0.st ≠ .fresh := by simpa using hs
+        have := (hfix j0 hj0 hne).2
+        rw [normInfo_id] at hc
+        rw [this] at hc; cases hc
+    have hflat := Forest.flatten_prune_eq rm (k.setNorm ks) hleaf hfl
+    simp only [NS, Tree.setNorm, Tree.prune, Tree.kids]
+    refine ⟨?_, ?_⟩
+    · intro m hm hf
+      rw [hflat, Forest.flatten_setNorm]
+      simp only [List.mem_filter, List.mem_map, keepP, Bool.not_eq_true']
+      exact ⟨⟨m, hm, (hfix m hm hf).1⟩, (hfix m hm hf).2⟩
+    · intro j hj hf
+      rw [hflat, Forest.flatten_setNorm] at hj
+      simp only [List.mem_filter, List.mem_map] at hj
+      obtain ⟨⟨j0, hj0, rfl⟩, _⟩ := hj
+      have hst : (normInfo ks j0).st = j0.st := by unfold normInfo; split <;> rfl
+      rw [hst] at hf
+      rw [(hfix j0 hj0 hf).1]
+      exact hj0
+
+/-- de-duplication keeps every processed node, and leaves pairwise distinct URLs below the seed -/
+theorem keeps_dedupe (F : IF) (hF : okSets F = true) (hD : okDedupe F = true) {R d : Nat} {t : Tree} (h : Mid R d (· = .fresh) t) (hpu : PU t) :
+    Keeps t (dedupe F t) ∧ ((NS (dedupe F t)).map (·.url)).Nodup := by
+  match t, h, hpu with
+  | .node i k, h, hpu =>
+    have hid : (k.flatten.map (·.id)).Nodup := NS_ids_nodup _ h.ids
+    have hu : ProcessedUnique k.flatten := by
+      intro a ha b hb hfa hfb hab
+      exact eq_of_id_eq k.flatten hid a b ha hb (hpu a ha b hb hfa hfb hab)
+    have hfresh := fold_removed_fresh F hD [] k.flatten { seen := [], removed := [] } (by simpa using hid) dinv_init
+      (by simpa using hu) (by simp)
+    simp only [List.nil_append] at hfresh
+    have hleaf : ∀ j ∈ k.flatten, (dedupeRemoved F k.flatten).contains j.id = true → j.st = .fresh := by
+      intro j hj hc
+      simp only [List.contains_eq_mem, decide_eq_true_eq] at hc
+      obtain ⟨m', hm', hid', hst'⟩ := hfresh _ hc
+      have : m' = j := eq_of_id_eq _ hid m' j hm' hj hid'
+      rw [← this]; exact hst'
+    have hfl : k.freshLeaf = true := by
+      have := mid_freshLeaf h
+      simp only [Tree.freshLeaf, Bool.and_eq_true] at this
+      exact this.2
+    have hprune := Forest.flatten_prune_eq (dedupeRemoved F k.flatten) k hleaf hfl
+    have hkids : (dedupe F (.node i k)).kids = (k.prune (dedupeRemoved F k.flatten)).mark F := by
+      simp only [dedupe, Tree.prune]
+      exact Tree.kids_mark F i _
+    refine ⟨?_, ?_⟩
+    · intro m hm hf
+      simp only [NS, Tree.kids] at hm
+      have hkept : m ∈ (k.prune (dedupeRemoved F k.flatten)).flatten := by
+        rw [hprune]
+        simp only [List.mem_filter, keepP, Bool.not_eq_true']
+        refine ⟨hm, ?_⟩
+        cases hc : (dedupeRemoved F k.flatten).contains m.id with
+        | false => rfl
+        | true => exact absurd (hleaf m hm hc) hf
+      obtain ⟨m', hm', hk'⟩ := mem_of_map_key_eq (Forest.flatten_mark_key F hF _) m hkept
+      simp only [key, Prod.mk.injEq] at hk'
+      refine ⟨m', by simpa [NS, hkids] using hm', hk'.1, hk'.2.1, ?_⟩
+      intro hfm
+      have : (m.st == Status.fresh) = true := by rw [← hk'.2.2]; simp [hfm]
+      exact hf (by simpa using this)
+    · simpa [NS] using dedupe_nodup F i k hid
+
+/-- **preprocess**: processed nodes stay (with id and URL), the non-seed URLs of the result are pairwise distinct, and the ids of
+the working level come from the working level -/
+theorem pre_fetch (S : SF) (I : IF) (hI : okSets I = true) (hD : okDedupe I = true) (hg : (S.preSeencheckGuard == "always") = false) (cfg : Cfg)
+    (norm : String → Option NormRes) (seen : Seen) {R d' : Nat} {t : Tree} (h : Start R (d' + 1) t) (hw : t.wp (d' + 1) = true) (hpu : PU t) :
+    Keeps t (preprocess S I cfg norm seen t).1 ∧ ((NS (preprocess S I cfg norm seen t).1).map (·.url)).Nodup ∧
+      LevelSub d' t (preprocess S I cfg norm seen t).1 ∧ (preprocess S I cfg norm seen t).1.idl.Nodup := by
+  have hm : MidW R (d' + 1) (· = .fresh) t := ⟨h.toMid, hw⟩
+  have hsc := scan_ids cfg norm t (t.atLevel (d' + 1))
+  have h1 := midW_setNorm_prune (scan cfg norm t (t.atLevel (d' + 1))).2.1 (scan cfg norm t (t.atLevel (d' + 1))).1 hm
+  have hk1 := keeps_setNorm_prune h (scan cfg norm t (t.atLevel (d' + 1))).2.1 (scan cfg norm t (t.atLevel (d' + 1))).1
+    (fun kr hkr => hsc.2 kr hkr) (fun x hx => hsc.1 x hx)
+  have hpu1 : PU ((t.setNorm (scan cfg norm t (t.atLevel (d' + 1))).2.1).prune (scan cfg norm t (t.atLevel (d' + 1))).1) := by
+    intro a ha b hb hfa hfb hab
+    exact hpu a (hk1.2 a ha hfa) b (hk1.2 b hb hfb) hfa hfb hab
+  have hk2 := keeps_dedupe I hI hD h1.1 hpu1
+  have hls1 : LevelSub d' t ((t.setNorm (scan cfg norm t (t.atLevel (d' + 1))).2.1).prune (scan cfg norm t (t.atLevel (d' + 1))).1) := by
+    intro x hx
+    simp only [ids, List.mem_map] at hx ⊢
+    obtain ⟨j, hj, rfl⟩ := hx
+    have hj' := Tree.atLevel_prune_all _ _ _ j hj
+    rw [Tree.atLevel_setNorm] at hj'
+    obtain ⟨j0, hj0, rfl⟩ := List.mem_map.1 hj'
+    exact ⟨j0, hj0, (normInfo_id _ j0).symm⟩
+  have hls2 : LevelSub d' ((t.setNorm (scan cfg norm t (t.atLevel (d' + 1))).2.1).prune (scan cfg norm t (t.atLevel (d' + 1))).1)
+      (dedupe I ((t.setNorm (scan cfg norm t (t.atLevel (d' + 1))).2.1).prune (scan cfg norm t (t.atLevel (d' + 1))).1)) :=
+    fun x hx => dedupe_level_ids I _ d' x hx
+  have hf : (scan cfg norm t (t.atLevel (d' + 1))).2.2 = none :=
+    scan_flag_none cfg norm t _ (fun i hi => ⟨h.fresh i hi, Tree.parentStatus_par t h.ids d' hw i hi⟩)
+  have hrel := preTail_relabel S hg cfg seen
+    (dedupe I ((t.setNorm (scan cfg norm t (t.atLevel (d' + 1))).2.1).prune (scan cfg norm t (t.atLevel (d' + 1))).1)) (d' + 1)
+  have hlev := preTail_levelSub S hg cfg seen
+    (dedupe I ((t.setNorm (scan cfg norm t (t.atLevel (d' + 1))).2.1).prune (scan cfg norm t (t.atLevel (d' + 1))).1)) (d' + 1) d'
+  unfold preprocess preCore
+  simp only [h.depth, hf]
+  simp only at hrel hlev
+  refine ⟨?_, ?_, ?_, ?_⟩
+  · have hka : Keeps t ((t.setNorm (scan cfg norm t (t.atLevel (d' + 1))).2.1).prune (scan cfg norm t (t.atLevel (d' + 1))).1) := by
+      intro m hm' hfm
+      exact ⟨m, hk1.1 m hm' hfm, rfl, rfl, hfm⟩
+    exact (hka.trans hk2.1).trans hrel.keeps
+  · rw [hrel.urls]; exact hk2.2
+  · exact (hls1.trans hls2).trans hlev
+  · rw [hrel.idl]; exact (midW_dedupe I hI h1).1.ids
+
+
+theorem key_fields {a b : Info} (h : key a = key b) : a.id = b.id ∧ a.url = b.url ∧ (a.st = .fresh ↔ b.st = .fresh) := by
+  simp only [key, Prod.mk.injEq] at h
+  refine ⟨h.1, h.2.1, ?_⟩
+  constructor
+  · intro ha; have : (b.st == Status.fresh) = true := by rw [← h.2.2]; simp [ha]
+    simpa using this
+  · intro hb; have : (a.st == Status.fresh) = true := by rw [h.2.2]; simp [hb]
+    simpa using this
+
+/-- what `preprocess` returns, structurally: a relabelling of the de-duplicated, filtered tree — or of the filtered tree when the
+seed itself was rejected -/
+theorem pre_structure (S : SF) (I : IF) (hg : (S.preSeencheckGuard == "always") = false) (cfg : Cfg) (norm : String → Option NormRes)
+    (seen : Seen) (t : Tree) (hfresh : ∀ i ∈ t.atLevel t.maxDepth, i.st = .fresh) :
+    Relabel (dedupe I ((t.setNorm (scan cfg norm t (t.atLevel t.maxDepth)).2.1).prune (scan cfg norm t (t.atLevel t.maxDepth)).1))
+        (preprocess S I cfg norm seen t).1 ∨
+    Relabel ((t.setNorm (scan cfg norm t (t.atLevel t.maxDepth)).2.1).prune (scan cfg norm t (t.atLevel t.maxDepth)).1)
+        (preprocess S I cfg norm seen t).1 := by
+  unfold preprocess preCore
+  simp only
+  rcases scan_flag cfg norm t (t.atLevel t.maxDepth) hfresh with hf | hf | hf
+  · simp only [hf]; exact Or.inl (preTail_relabel S hg cfg seen _ _)
+  · simp only [hf, List.isEmpty_nil, if_true]; exact Or.inr (relabel_setRoot _ _)
+  · simp only [hf, List.isEmpty_nil, if_true]; exact Or.inr (relabel_setRoot _ _)
+
+theorem NS_prune_setNorm_ids (ks : List (String × NormRes)) (rm : List String) (t : Tree) :
+    ∀ x ∈ NS ((t.setNorm ks).prune rm), ∃ y ∈ NS t, y.id = x.id := by
+  match t with
+  | .node i k =>
+    intro x hx
+    simp only [NS, Tree.setNorm, Tree.prune, Tree.kids] at hx ⊢
+    have h1 := (Forest.flatten_prune rm (k.setNorm ks)).subset hx
+    simp only [List.mem_filter] at h1
+    rw [Forest.flatten_setNorm] at h1
+    obtain ⟨y, hy, rfl⟩ := List.mem_map.1 h1.1
+    exact ⟨y, hy, (normInfo_id ks y).symm⟩
+
+theorem NS_dedupe_ids (F : IF) (hF : okSets F = true) (t : Tree) : ∀ x ∈ NS (dedupe F t), ∃ y ∈ NS t, y.id = x.id := by
+  match t with
+  | .node i k =>
+    intro x hx
+    have hkids : (dedupe F (.node i k)).kids = (k.prune (dedupeRemoved F k.flatten)).mark F := by
+      simp only [dedupe, Tree.prune]
+      exact Tree.kids_mark F i _
+    simp only [NS, hkids] at hx
+    obtain ⟨y, hy, hk⟩ := mem_of_map_key_eq (Forest.flatten_mark_key F hF _).symm x hx
+    have h1 := (Forest.flatten_prune _ k).subset hy
+    simp only [List.mem_filter] at h1
+    exact ⟨y, by simpa [NS, Tree.kids] using h1.1, (key_fields hk).1⟩
+
+/-- `preprocess` adds no node -/
+theorem pre_adds_no_nodes (S : SF) (I : IF) (hI : okSets I = true) (hg : (S.preSeencheckGuard == "always") = false) (cfg : Cfg)
+    (norm : String → Option NormRes) (seen : Seen) {t : Tree} (hfresh : ∀ i ∈ t.atLevel t.maxDepth, i.st = .fresh) :
+    ∀ x ∈ NS (preprocess S I cfg norm seen t).1, ∃ y ∈ NS t, y.id = x.id := by
+  intro x hx
+  have hid : x.id ∈ (NS (preprocess S I cfg norm seen t).1).map (·.id) := List.mem_map.2 ⟨x, hx, rfl⟩
+  rcases pre_structure S I hg cfg norm seen t hfresh with hr | hr
+  · rw [hr.ids] at hid
+    obtain ⟨x2, hx2, e2⟩ := List.mem_map.1 hid
+    obtain ⟨x1, hx1, e1⟩ := NS_dedupe_ids I hI _ x2 hx2
+    obtain ⟨y, hy, e0⟩ := NS_prune_setNorm_ids _ _ t x1 hx1
+    exact ⟨y, hy, e0.trans (e1.trans e2)⟩
+  · rw [hr.ids] at hid
+    obtain ⟨x1, hx1, e1⟩ := List.mem_map.1 hid
+    obtain ⟨y, hy, e0⟩ := NS_prune_setNorm_ids _ _ t x1 hx1
+    exact ⟨y, hy, e0.trans e1⟩
+
+/-! ### archive, postprocess, finisher -/
+
+theorem flatten_eq (t : Tree) : t.flatten = t.info :: NS t := by
+  match t with | .node i k => rfl
+
+theorem archive_NS_key (srv : String → Option Outcome) (t : Tree) : (NS (archive srv t)).map key = (NS t).map key := by
+  have h := Tree.flatten_archive_key srv t.maxDepth 0 t
+  rw [flatten_eq, flatten_eq, List.map_cons, List.map_cons] at h
+  exact (List.cons.inj h).2
+
+theorem post_root_id (S : SF) (cfg : Cfg) (ex : String → Extract) (d lvl : Nat) (pdnr : Int) (isSeed : Bool) (t : Tree) :
+    (t.post S cfg ex d lvl pdnr isSeed).1.info.id = t.info.id := by
+  match t with
+  | .node i k =>
+    unfold Tree.post
+    split
+    · split
+      · show ((match postAct S cfg ex i (nodeDnr isSeed i.st pdnr) with
+            | PostAct.complete => _ | PostAct.redirect c => _ | PostAct.extract kids outs => _ : Tree × List Outlink).1).info.id = _
+        split <;> rfl
+      · rfl
+    · show (match Forest.post S cfg ex d (lvl + 1) (nodeDnr isSeed i.st pdnr) k with
+        | (k', outs) => ((Tree.node { i with body := false } k', outs) : Tree × List Outlink)).1.info.id = _
+      cases Forest.post S cfg ex d (lvl + 1) (nodeDnr isSeed i.st pdnr) k with
+      | mk k' outs => rfl
+
+/-- postprocess on the non-seed nodes: every old one is still there with the same key; every processed one is an old one -/
+theorem post_NS (S : SF) (hS : okPost S = true) (cfg : Cfg) (ex : String → Extract) (a : Tree) (ha : a.idl.Nodup)
+    (hq : (postprocess S cfg ex a).1.idl.Nodup) :
+    (∀ m ∈ NS a, ∃ j ∈ NS (postprocess S cfg ex a).1, key j = key m) ∧
+    (∀ j ∈ NS (postprocess S cfg ex a).1, j.st ≠ .fresh → ∃ m ∈ NS a, key m = key j) := by
+  have hpn := Tree.flatten_post S hS cfg ex a.maxDepth 0 0 true a
+  have hrid : (postprocess S cfg ex a).1.info.id = a.info.id := post_root_id S cfg ex _ 0 0 true a
+  refine ⟨?_, ?_⟩
+  · intro m hm
+    obtain ⟨j, hj, hk⟩ := hpn.1 m (NS_sub_flatten a m hm)
+    have hjm : j.id = m.id := by simp only [key, Prod.mk.injEq] at hk; exact hk.1
+    have hj : j ∈ (postprocess S cfg ex a).1.flatten := hj
+    rw [flatten_eq] at hj
+    simp only [List.mem_cons] at hj
+    rcases hj with rfl | hj
+    · exact absurd (hjm.symm.trans hrid) (root_id_not_in_NS a ha m hm)
+    · exact ⟨j, hj, hk⟩
+  · intro j hj hf
+    have hjf : j ∈ (Tree.post S cfg ex a.maxDepth 0 0 true a).1.flatten := NS_sub_flatten (postprocess S cfg ex a).1 j hj
+    rcases hpn.2 j hjf with ⟨m, hm, hk⟩ | hfresh
+    · have hmj : m.id = j.id := by simp only [key, Prod.mk.injEq] at hk; exact hk.1
+      rw [flatten_eq] at hm
+      simp only [List.mem_cons] at hm
+      rcases hm with rfl | hm
+      · exact absurd (hmj.symm.trans hrid.symm) (root_id_not_in_NS _ hq j hj)
+      · exact ⟨m, hm, hk⟩
+    · exact absurd hfresh hf
+
+theorem fin_NS_key (I : IF) (hI : okSets I = true) (q : Tree) : (NS (finisher I q).1).map key = (NS q).map key := by
+  have hmark : (NS (q.mark I)).map key = (NS q).map key := by
+    have h := Tree.flatten_mark_key I hI q
+    rw [flatten_eq, flatten_eq, List.map_cons, List.map_cons] at h
+    exact (List.cons.inj h).2
+  by_cases hf : (q.st == Status.fresh) = true
+  · simp [finisher, hf]
+  · by_cases hw : hasWork I q.st = true
+    · simp only [finisher, hf, Bool.false_eq_true, if_false, completeAndCheck, hw, Bool.not_true]
+      exact hmark
+    · have hw' : hasWork I q.st = false := by simpa using hw
+      simp [finisher, hf, completeAndCheck, hw']
+
+/-- from the tree `preprocess` hands on to the tree the finisher hands back: processed nodes persist, and no processed node
+appears that was not there -/
+theorem rest_of_pass (S : SF) (hS : okPost S = true) (I : IF) (hI : okSets I = true) (cfg : Cfg) (o : Oracle) (p1 : Tree) (hp : p1.idl.Nodup)
+    (hq : (postprocess S cfg o.ex (archive o.srv p1)).1.idl.Nodup) :
+    let T := (finisher I (postprocess S cfg o.ex (archive o.srv p1)).1).1
+    (∀ m ∈ NS p1, ∃ j ∈ NS T, key j = key m) ∧ (∀ j ∈ NS T, j.st ≠ .fresh → ∃ m ∈ NS p1, key m = key j) := by
+  have ha : (archive o.srv p1).idl.Nodup := by unfold archive; rw [Tree.idl_archive]; exact hp
+  obtain ⟨hp1, hp2⟩ := post_NS S hS cfg o.ex (archive o.srv p1) ha hq
+  have hak := archive_NS_key o.srv p1
+  have hfk := fin_NS_key I hI (postprocess S cfg o.ex (archive o.srv p1)).1
+  refine ⟨?_, ?_⟩
+  · intro m hm
+    obtain ⟨m1, hm1, hk1⟩ := mem_of_map_key_eq hak m hm
+    obtain ⟨m2, hm2, hk2⟩ := hp1 m1 hm1
+    obtain ⟨m3, hm3, hk3⟩ := mem_of_map_key_eq hfk m2 hm2
+    exact ⟨m3, hm3, hk3.trans (hk2.trans hk1)⟩
+  · intro j hj hf
+    obtain ⟨j2, hj2, hk2⟩ := mem_of_map_key_eq hfk.symm j hj
+    have hf2 : j2.st ≠ .fresh := fun h => hf ((key_fields hk2).2.2.1 h)
+    obtain ⟨j1, hj1, hk1⟩ := hp2 j2 hj2 hf2
+    obtain ⟨j0, hj0, hk0⟩ := mem_of_map_key_eq hak.symm j1 hj1
+    exact ⟨j0, hj0, hk0.trans (hk1.trans hk2)⟩
+
+/-- the requests of one pass: the non-seed nodes `preprocess` leaves PreProcessed on the working level, as (id, canonical URL) -/
+def passReqs (S : SF) (I : IF) (cfg : Cfg) (o : Oracle) (seen : Seen) (t : Tree) : List (String × String) :=
+  if t.maxDepth = 0 then []
+  else (((preprocess S I cfg o.norm seen t).1.atLevel t.maxDepth).filter (fun n => n.st == .preProcessed)).map (fun n => (n.id, n.url))
+
+/-- **One pass, for the fetches.** With processed nodes carrying pairwise distinct URLs at the start: they all persist (id and URL)
+to the end of the pass, the same holds at the end, and every node that gets a request in this pass is new among the processed
+nodes and is itself among the processed nodes at the end. -/
+theorem pass_fetch (S : SF) (hS : okPost S = true) (hg : (S.preSeencheckGuard == "always") = false) (I : IF) (hI : okSets I = true)
+    (hD : okDedupe I = true) (cfg : Cfg) (o : Oracle) (seen : Seen) {R d : Nat} {t : Tree} (h : Start R d t) (hw : t.wp d = true) (hpu : PU t)
+    (hid : passIds S I cfg o seen t = true) :
+    let T := (pass S I cfg o seen t).tree
+    Keeps t T ∧ PU T ∧
+    (∀ r ∈ passReqs S I cfg o seen t, (∃ n' ∈ NS T, n'.id = r.1 ∧ n'.url = r.2 ∧ n'.st ≠ .fresh) ∧ (∀ m ∈ NS t, m.st ≠ .fresh → m.id ≠ r.1)) := by
+  have hq := of_decide_eq_true hid
+  cases d with
+  | zero =>
+    -- the seed alone: it has no non-seed node yet, and whatever postprocess adds below it is Fresh
+    have hk : t.kids = .nil := by
+      match t, h with
+      | .node i k, h =>
+        have := atLevel_above_nil (.node i k) 1 (by rw [h.depth]; omega)
+        simp only [Tree.atLevel] at this
+        exact forest_atLevel_zero_nil k this
+    have hns : NS t = [] := by simp [NS, hk, Forest.flatten]
+    have hp1 : NS (preprocess S I cfg o.norm seen t).1 = [] := by
+      cases hl : NS (preprocess S I cfg o.norm seen t).1 with
+      | nil => rfl
+      | cons x xs =>
+        obtain ⟨y, hy, _⟩ := pre_adds_no_nodes S I hI hg cfg o.norm seen (by rw [h.depth]; exact h.fresh) x (by rw [hl]; simp)
+        rw [hns] at hy; cases hy
+    have hpids : (preprocess S I cfg o.norm seen t).1.idl.Nodup := by
+      rw [idl_eq, hp1]; simp
+    obtain ⟨_, hr2⟩ := rest_of_pass S hS I hI cfg o _ hpids hq
+    have hallfresh : ∀ j ∈ NS (pass S I cfg o seen t).tree, j.st = .fresh := by
+      intro j hj
+      cases hs : decide (j.st = .fresh) with
+      | true => simpa using hs
+      | false =>
+        exfalso
+        obtain ⟨m, hm, _⟩ := hr2 j hj (by simpa using hs)
+        rw [hp1] at hm; cases hm
+    refine ⟨(by intro m hm; rw [hns] at hm; cases hm), ?_, ?_⟩
+    · intro a ha b _ hfa
+      exact absurd (hallfresh a ha) hfa
+    · intro r hr
+      simp [passReqs, h.depth] at hr
+  | succ d' =>
+    obtain ⟨hk, hnd, hls, hpids⟩ := pre_fetch S I hI hD hg cfg o.norm seen h hw hpu
+    obtain ⟨hr1, hr2⟩ := rest_of_pass S hS I hI cfg o _ hpids hq
+    have hkeepsRest : Keeps (preprocess S I cfg o.norm seen t).1 (pass S I cfg o seen t).tree := by
+      intro m hm hf
+      obtain ⟨j, hj, hkj⟩ := hr1 m hm
+      obtain ⟨e1, e2, e3⟩ := key_fields hkj
+      exact ⟨j, hj, e1, e2, fun hjf => hf (e3.1 hjf)⟩
+    refine ⟨hk.trans hkeepsRest, ?_, ?_⟩
+    · intro a ha b hb hfa hfb hab
+      obtain ⟨a0, ha0, hka⟩ := hr2 a ha hfa
+      obtain ⟨b0, hb0, hkb⟩ := hr2 b hb hfb
+      obtain ⟨ea1, ea2, _⟩ := key_fields hka
+      obtain ⟨eb1, eb2, _⟩ := key_fields hkb
+      have : a0 = b0 := eq_of_nodup_map (·.url) _ hnd a0 b0 ha0 hb0 (by rw [ea2, eb2]; exact hab)
+      rw [← ea1, ← eb1, this]
+    · intro r hr
+      simp only [passReqs, h.depth, Nat.succ_ne_zero, if_false, List.mem_map, List.mem_filter] at hr
+      obtain ⟨n, ⟨hn, hst⟩, rfl⟩ := hr
+      have hnpp : n.st = .preProcessed := by simpa using hst
+      have hnNS : n ∈ NS (preprocess S I cfg o.norm seen t).1 := atLevel_succ_sub_NS _ d' n hn
+      refine ⟨?_, ?_⟩
+      · obtain ⟨j, hj, e1, e2, e3⟩ := hkeepsRest n hnNS (by rw [hnpp]; simp)
+        exact ⟨j, hj, e1, e2, e3⟩
+      · intro m hm hf he
+        have hx : n.id ∈ ids (t.atLevel (d' + 1)) := hls n.id (List.mem_map.2 ⟨n, hn, rfl⟩)
+        obtain ⟨f, hfm, hfid⟩ := List.mem_map.1 hx
+        exact processed_not_on_level h m (NS_sub_flatten t m hm) hf f hfm (hfid.trans he.symm)
+
+
+/-! ### the whole life -/
+
+mutual
+theorem Tree.atLevel_sublist_flatten (t : Tree) (n : Nat) : (t.atLevel n).Sublist t.flatten := by
+  match t, n with
+  | .node i k, 0 => simp [Tree.atLevel, Tree.flatten]
+  | .node i k, n + 1 =>
+    simp only [Tree.atLevel, Tree.flatten]
+    exact (Forest.atLevel_sublist_flatten k n).cons i
+theorem Forest.atLevel_sublist_flatten (f : Forest) (n : Nat) : (f.atLevel n).Sublist f.flatten := by
+  match f with
+  | .nil => simp [Forest.atLevel, Forest.flatten]
+  | .cons t f =>
+    simp only [Forest.atLevel, Forest.flatten]
+    exact (Tree.atLevel_sublist_flatten t n).append (Forest.atLevel_sublist_flatten f n)
+end
+
+/-- all requests of a life, pass after pass -/
+def lifeReqs (S : SF) (I : IF) (cfg : Cfg) : List Oracle → Seen → Tree → List (String × String)
+  | [], _, _ => []
+  | o :: os, seen, t =>
+    passReqs S I cfg o seen t ++
+      (if (pass S I cfg o seen t).act == .feedback then lifeReqs S I cfg os (pass S I cfg o seen t).seen (pass S I cfg o seen t).tree else [])
+
+/-- requests recorded so far, all still present as processed nodes of the current tree -/
+def Recorded (acc : List (String × String)) (t : Tree) : Prop :=
+  acc.Nodup ∧ ∀ p ∈ acc, ∃ m ∈ NS t, m.st ≠ .fresh ∧ m.id = p.1 ∧ m.url = p.2
+
+theorem recorded_urls_nodup {acc : List (String × String)} {t : Tree} (h : Recorded acc t) (hpu : PU t) : (acc.map Prod.snd).Nodup := by
+  apply nodup_map_on _ _ h.1
+  intro p hp q hq hpq
+  obtain ⟨m, hm, hmf, hm1, hm2⟩ := h.2 p hp
+  obtain ⟨n, hn, hnf, hn1, hn2⟩ := h.2 q hq
+  have : m.id = n.id := hpu m hm n hn hmf hnf (by rw [hm2, hn2]; exact hpq)
+  exact Prod.ext (by rw [← hm1, ← hn1, this]) hpq
+
+theorem passReqs_nodup (S : SF) (I : IF) (cfg : Cfg) (o : Oracle) (seen : Seen) (t : Tree) (hp : (preprocess S I cfg o.norm seen t).1.idl.Nodup) :
+    (passReqs S I cfg o seen t).Nodup := by
+  unfold passReqs
+  split
+  · exact List.nodup_nil
+  · have hsub : (((preprocess S I cfg o.norm seen t).1.atLevel t.maxDepth).filter (fun n => n.st == .preProcessed)).Sublist
+        (preprocess S I cfg o.norm seen t).1.flatten := List.filter_sublist.trans (Tree.atLevel_sublist_flatten _ _)
+    have hids : ((((preprocess S I cfg o.norm seen t).1.atLevel t.maxDepth).filter (fun n => n.st == .preProcessed)).map (·.id)).Nodup :=
+      (hsub.map (fun (x : Info) => x.id)).nodup hp
+    have hinj := nodup_of_map (fun (x : Info) => x.id) _ hids
+    apply nodup_map_on _ _ hinj
+    intro a ha b hb hab
+    exact eq_of_nodup_map (fun (x : Info) => x.id) _ hids a b ha hb (by simpa using congrArg Prod.fst hab)
+
+/-- **No URL is fetched by two different non-seed nodes of a seed's tree — across all passes.** -/
+theorem life_fetch (S : SF) (hS : okPost S = true) (hg : (S.preSeencheckGuard == "always") = false) (I : IF) (hI : okSets I = true)
+    (hD : okDedupe I = true) (cfg : Cfg) (hdc : cfg.domainsCrawl = false) (os : List Oracle) :
+    ∀ (seen : Seen) (d : Nat) (t : Tree) (acc : List (String × String)), Start cfg.maxRedirect d t → t.wp d = true → PU t →
+      idsOK S I cfg os seen t = true → Recorded acc t → ((acc ++ lifeReqs S I cfg os seen t).map Prod.snd).Nodup := by
+  induction os with
+  | nil =>
+    intro seen d t acc _ _ hpu _ hrec
+    simpa [lifeReqs] using recorded_urls_nodup hrec hpu
+  | cons o os ih =>
+    intro seen d t acc h hw hpu hids hrec
+    simp only [idsOK, Bool.and_eq_true, Bool.or_eq_true, Bool.not_eq_true'] at hids
+    obtain ⟨hkeeps, hpuT, hreqs⟩ := pass_fetch S hS hg I hI hD cfg o seen h hw hpu hids.1
+    have hprog := pass_progressW S hS hg I hI cfg hdc o seen h hw hids.1
+    -- ids of the tree preprocess hands on are distinct
+    have hpids : (preprocess S I cfg o.norm seen t).1.idl.Nodup := by
+      cases d with
+      | zero =>
+        have hmid := pre_specW S I hI hg cfg o.norm seen h hw
+        rcases hmid with hdone | ⟨hm, _⟩
+        · -- only the seed: no non-seed node (preprocess adds none)
+          have hk : NS t = [] := by
+            match t, h with
+            | .node i k, h =>
+              have := atLevel_above_nil (.node i k) 1 (by rw [h.depth]; omega)
+              simp only [Tree.atLevel] at this
+              have := forest_atLevel_zero_nil k this
+              subst this
+              simp [NS, Tree.kids, Forest.flatten]
+          have : NS (preprocess S I cfg o.norm seen t).1 = [] := by
+            cases hl : NS (preprocess S I cfg o.norm seen t).1 with
+            | nil => rfl
+            | cons x xs =>
+              obtain ⟨y, hy, _⟩ := pre_adds_no_nodes S I hI hg cfg o.norm seen (by rw [h.depth]; exact h.fresh) x (by rw [hl]; simp)
+              rw [hk] at hy; cases hy
+          rw [idl_eq, this]; simp
+        · exact hm.1.ids
+      | succ d' => exact (pre_fetch S I hI hD hg cfg o.norm seen h hw hpu).2.2.2
+    have hnewnd := passReqs_nodup S I cfg o seen t hpids
+    -- the record, extended by this pass's requests, is a record for the tree the finisher hands back
+    have hrec' : Recorded (acc ++ passReqs S I cfg o seen t) (pass S I cfg o seen t).tree := by
+      refine ⟨?_, ?_⟩
+      · rw [List.nodup_append]
+        refine ⟨hrec.1, hnewnd, ?_⟩
+        intro p hp q hq hpq
+        subst hpq
+        obtain ⟨m, hm, hmf, hm1, _⟩ := hrec.2 p hp
+        exact (hreqs p hq).2 m hm hmf hm1
+      · intro p hp
+        rcases List.mem_append.1 hp with hp | hp
+        · obtain ⟨m, hm, hmf, hm1, hm2⟩ := hrec.2 p hp
+          obtain ⟨m', hm', e1, e2, e3⟩ := hkeeps m hm hmf
+          exact ⟨m', hm', e3, e1.trans hm1, e2.trans hm2⟩
+        · obtain ⟨n', hn', e1, e2, e3⟩ := (hreqs p hp).1
+          exact ⟨n', hn', e3, e1, e2⟩
+    simp only [lifeReqs]
+    rcases hprog with ⟨hf, _⟩ | ⟨hf, hst, hw'⟩
+    · simp only [hf]
+      have : (FinAct.finish == FinAct.feedback) = false := by decide
+      simp only [this, Bool.false_eq_true, if_false, List.append_nil]
+      exact recorded_urls_nodup hrec' hpuT
+    · simp only [hf, beq_self_eq_true, if_true]
+      have hids' : idsOK S I cfg os (pass S I cfg o seen t).seen (pass S I cfg o seen t).tree = true := by
+        rcases hids.2 with h' | h'
+        · rw [hf] at h'; cases h'
+        · exact h'
+      have := ih _ (d + 1) _ (acc ++ passReqs S I cfg o seen t) hst hw' hpuT hids' hrec'
+      rwa [List.append_assoc] at this
 
 end Zeno.Model.Life
